@@ -157,29 +157,23 @@ def textOp (consume : Bool) (s : St) : St × Res :=
       | .reset => textCore consume (resetSt s)
     else textCore consume s
 
-/-- `get_byte` after the checks: one byte through `Read`, `past_end_of_stream` when there is none. -/
-def getByteCore (s : St) : St × Res :=
+/-- `get_byte` (`consume = true`: one byte through `Read`, `past_end_of_stream` when there is
+    none) / `peek_byte` after the checks. -/
+def byteCore (consume : Bool) (s : St) : St × Res :=
   match rest s with
-  | [] => ({ s with past := true }, .ok .eof)
-  | b :: _ => ({ s with cur := s.cur + 1 }, .ok (.byte b))
-
-/-- `peek_byte` after the checks. -/
-def peekByteCore (s : St) : St × Res :=
-  match rest s with
-  | [] => (s, .ok .eof)
-  | b :: _ => (s, .ok (.byte b))
+  | [] => (if consume then { s with past := true } else s, .ok .eof)
+  | b :: _ => (if consume then { s with cur := s.cur + 1 } else s, .ok (.byte b))
 
 def byteOp (consume : Bool) (s : St) : St × Res :=
   match check s .binary true with
   | some e => (s, .error e)
   | none =>
-    let core := fun s => if consume then getByteCore s else peekByteCore s
     if s.past then
       match s.eofAction with
       | .error => (s, .error .inputPastEnd)
       | .eofCode => (s, .ok .eof)
-      | .reset => core (resetSt s)
-    else core s
+      | .reset => byteCore consume (resetSt s)
+    else byteCore consume s
 
 /-- the `for _ in 0..num { iter.read_char() }` loop of `get_n_chars`: the characters and the number
     of bytes they span; stops at the end of the input (and, abstracted, at invalid UTF-8). -/
